@@ -1072,6 +1072,21 @@ class C11(Prop):
             lines.append(case_line(f'm{n}p', main, inp, defs=[d]))
             lines.append(case_line(f'm{n}c', main, inp, defs=[erase_memo(d)]))
             n += 1
+        # the SAME memoized parser retried at the same position (cache hit) under wrappers that take the pending error and
+        # expect the retried failure to leave one: a.then(b).or(a.then(c)) with a = wrapped memoized parser
+        for g in base[:60] + [('just', [gen.A]), ('then', ('just', [gen.A]), ('just', [gen.B])), ('oneof', [gen.A, gen.B])]:
+            d = ('memo', 51, g)
+            for w in gen.DECORATIONS + gen.RECOVERIES[:3] + [lambda a: a]:
+                a_ = w(('call', 0))
+                main = ('or', ('then', a_, ('just', [gen.B])), ('then', a_, ('just', [gen.A])))
+                main_c = main
+                lines.append(case_line(f'm{n}p', main, inp, defs=[d]))
+                lines.append(case_line(f'm{n}c', main_c, inp, defs=[erase_memo(d)]))
+                n += 1
+                main = ('choices', [('then', a_, ('just', [gen.B])), ('then', ('ornot', a_), ('just', [gen.EA])), a_])
+                lines.append(case_line(f'm{n}p', main, inp, defs=[d]))
+                lines.append(case_line(f'm{n}c', main, inp, defs=[erase_memo(d)]))
+                n += 1
         # left recursion: must terminate (no plain counterpart: the unmemoized grammar overflows the stack)
         linp = inputs_all(4 if tier == 'quick' else 6, [120, 43, 121, 45])
         for i, (defs, main) in enumerate(LEFT_REC):
